@@ -108,6 +108,9 @@ func (bw *BatchedWriter) startBatchWriter() {
 	bw.startStopMutex.Lock()
 	if !bw.running.Load() {
 		bw.running.Store(true)
+		// has to happen before the goroutine is started: otherwise StopBatchWriter can pass writeWg.Wait()
+		// before the writer has registered itself and return while objects are still being written.
+		bw.writeWg.Add(1)
 		go bw.runBatchWriter()
 	}
 	bw.startStopMutex.Unlock()
@@ -161,7 +164,6 @@ func (bw *BatchedWriter) Flush() {
 
 // runBatchWriter collects objects in batches and persists them to the KVStore.
 func (bw *BatchedWriter) runBatchWriter() {
-	bw.writeWg.Add(1)
 
 	for bw.running.Load() || bw.scheduledCount.Load() != 0 {
 		batchedMutation, err := bw.store.Batched()
